@@ -182,8 +182,10 @@ pub fn check(c: &Case) -> Verdict {
             o.verify = true;
             let ver = infra!(w.run(&o));
             runs += 2;
-            if plain.timed_out || ver.timed_out {
-                return Verdict::Infra("tool run hit the watchdog".into());
+            for r in [&plain, &ver] {
+                if let Some(v) = timed_out_is_infra(r) {
+                    return v;
+                }
             }
             if !ver.ok() {
                 return Verdict::Fail(format!("--verify -s 1, callback {}: run did not complete with exit status 0 on a consistent chain: {}", cb.cli(), ver.describe()));
